@@ -751,7 +751,8 @@ def _handle_escape(eng, f, la, st, acc, user):
         return None
     cur = user
     # climb from the '&field' expression to the call it is an argument of
-    while cur is not None and (cur["k"] in WRAPPERS or cur["k"] == "UnaryOperator"):
+    while cur is not None and (cur["k"] in WRAPPERS or cur["k"] == "UnaryOperator" or
+                               (cur["k"] == "CallExpr" and callee_fq(cur) == "std::addressof")):
         cur = f.par(cur)
     if cur is None:
         return None
